@@ -275,10 +275,18 @@ func cmdCheck(argv []string) int {
 	harnessDir := filepath.Join(verifDir, "harness")
 	buildDir := filepath.Join(verifDir, ".build")
 	os.MkdirAll(buildDir, 0o755)
+	if strings.HasPrefix(id, "SELF") {
+		// the engine's own regression runs are not property evidence
+		*evDir = filepath.Join(buildDir, "selftest")
+	}
 	os.MkdirAll(*evDir, 0o755)
 	replayDir := filepath.Join(verifDir, "replays")
 	os.MkdirAll(replayDir, 0o755)
 	t0 := time.Now()
+	sampleK := 97
+	if strings.HasPrefix(id, "SELF") {
+		sampleK = 1
+	}
 
 	broken := func(format string, a ...any) int {
 		msg := fmt.Sprintf(format, a...)
@@ -359,7 +367,7 @@ func cmdCheck(argv []string) int {
 		if budget == 0 {
 			budget = 400000
 		}
-		h := &HarnessRun{Name: rs.Harness, Fn: fn, Args: rs.Args, Budget: budget, SampleK: 97, MaxPaths: rs.MaxPaths}
+		h := &HarnessRun{Name: rs.Harness, Fn: fn, Args: rs.Args, Budget: budget, SampleK: sampleK, MaxPaths: rs.MaxPaths}
 		st := e.explore(h, *workers)
 		for round := 0; round < 6; round++ {
 			// a shared location was seen written for the first time: accesses to it are
@@ -371,7 +379,7 @@ func cmdCheck(argv []string) int {
 			if !grew || !spec.Threads {
 				break
 			}
-			h = &HarnessRun{Name: rs.Harness, Fn: fn, Args: rs.Args, Budget: budget, SampleK: 97, MaxPaths: rs.MaxPaths}
+			h = &HarnessRun{Name: rs.Harness, Fn: fn, Args: rs.Args, Budget: budget, SampleK: sampleK, MaxPaths: rs.MaxPaths}
 			st = e.explore(h, *workers)
 		}
 		inconclusive += h.inconclusive
